@@ -354,7 +354,7 @@ def compare(case, impl, model):
     op = case.split(" ", 1)[0]
     if op == "e2e":
         # no model prediction for a whole run: the oracle judges the observations
-        return model == "e2e-no-model" and impl.startswith("e2e ")
+        return model == "e2e-no-model" and impl.startswith(("e2e ", "e2e-crash "))
     if op in ("rq", "pl"):
         return impl in model.split("|")
     return impl == model
@@ -540,7 +540,19 @@ def _parse_e2e(impl):
     return kv, starts
 
 
+# Panics of the dispatcher itself that were observed on the unchanged tree and are outside C14 (a crash
+# is a dispatcher restart at an arbitrary moment, which the property allows): notes/C14.md O1, O2.
+KNOWN_PANICS = [
+    ("close of closed channel", "closeRunner"),          # O1: a closed runner re-inserted by a late start completion
+    ("nil pointer dereference", "reportSSHConnected"),   # O2: worker dropped during an SSH handshake
+]
+
+
 def _oracle_e2e(f, impl):
+    if impl.startswith("e2e-crash "):
+        if any(a in impl and b in impl for a, b in KNOWN_PANICS):
+            return None
+        return "the dispatcher process died: " + impl[:300]
     if not impl.startswith("e2e "):
         return "driver could not observe the run: " + impl[:200]
     kv, starts = _parse_e2e(impl)
@@ -650,6 +662,10 @@ def describe(cases, impl):
                 d["rq_starts"] += len(re.findall(r"\bst\d", r))
                 d["rq_locks"] += len(re.findall(r"\bql\d", r))
                 d["rq_overquota"] += 1 if "aq=1" in r else 0
+        elif f[0] == "e2e" and r and r.startswith("e2e-crash "):
+            e = d.setdefault("e2e_dispatcher_panics", {})
+            key = next((b for a, b in KNOWN_PANICS if a in r and b in r), "other")
+            e[key] = e.get(key, 0) + 1
         elif f[0] == "e2e" and r and r.startswith("e2e "):
             kv, starts = _parse_e2e(r)
             e = d.setdefault("e2e", {"runs": 0, "containers": 0, "crunch_run_starts": 0, "StartContainer_calls": 0,
